@@ -137,6 +137,8 @@ pub struct Variant {
     pub rename: Option<String>,
     pub skip: bool,
     pub word: bool,
+    /// spelled `#[darling(word = false)]`: an explicit opt-out, never the word variant
+    pub word_false: bool,
     pub body: VBody,
 }
 
@@ -461,7 +463,15 @@ impl<'a> Gen<'a> {
                     Ty::Recv(id)
                 }
             };
-            let post = if self.profile.options && self.rng.chance(1, 6) && !matches!(ty, Ty::Map(_)) { Post::Map } else { Post::None };
+            let post = if self.profile.options && self.rng.chance(1, 3) && !matches!(ty, Ty::Map(_)) {
+                if self.rng.chance(1, 2) {
+                    Post::Map
+                } else {
+                    Post::AndThen
+                }
+            } else {
+                Post::None
+            };
             out.push(Field {
                 rust: "rest".to_string(),
                 ty,
@@ -567,6 +577,7 @@ impl<'a> Gen<'a> {
                     rename: None,
                     skip: false,
                     word: false,
+                    word_false: false,
                     body,
                 };
                 if opts {
@@ -579,6 +590,9 @@ impl<'a> Gen<'a> {
                     if matches!(v.body, VBody::Unit) && !have_word && !v.skip && self.rng.chance(1, 6) {
                         v.word = true;
                         have_word = true;
+                    }
+                    if matches!(v.body, VBody::Unit) && !v.word && self.rng.chance(1, 5) {
+                        v.word_false = true;
                     }
                 }
                 vars.push(v);
